@@ -610,6 +610,22 @@ def bounded(payload):
                     n_kw += 1
     parts["keyword_order_pairs"] = n_kw
 
+    # ---- calls of different kinds: positional-only templates against targets that also carry keyword arguments, and back ----
+    n_ck = 0
+    V = lambda n: ["var", n]                                    # noqa: E731
+    ck_t = [["call", V("f"), [V("a")]], ["call", V("f"), [V("a")], {}], ["call", V("f"), [V("a"), V("b")]],
+            ["call", V("f"), [V("a")], {"t": V("b")}], ["call", V("f"), [], {"t": V("a")}],
+            ["sum", V("u"), ["call", V("f"), [V("a")]]]]
+    ck_e = [["call", V("g"), [V("x")]], ["call", V("g"), [V("x")], {"t": V("y")}], ["call", V("g"), [V("x"), V("y")]],
+            ["call", V("g"), [V("x")], {"t": V("y"), "s": V("z")}], ["call", V("g"), [], {"t": V("x")}],
+            ["call", V("g"), [V("x")], {"s": V("y")}], ["sum", V("u"), ["call", V("g"), [V("x")], {"t": V("y")}]]]
+    for T in ck_t:
+        for E in ck_e:
+            for free in (["f", "a", "b"], ["f", "a", "b", "u"], ["a", "b"], None):
+                run({"template": T, "target": E, "free": free, "bound": None, "pre_match": None})
+                n_ck += 1
+    parts["call_kind_pairs"] = n_ck
+
     # ---- several pre-supplied bindings: a match has to honour ALL of them (or ValueError) ----
     n_pm = 0
     for T, E, good in (
